@@ -271,6 +271,8 @@ def model_output(fam, case, scratch):
     src += "Definition observed : %s := %s.\n" % (fam["obs_type"], coqterm.term(case["coq_obs"]))
     if fam.get("explain"):
         src += "Eval vm_compute in (%s (input, observed)).\n" % fam["explain"]
+    if fam.get("chk_explain"):
+        src += "Eval vm_compute in (%s (input, observed)).\n" % fam["chk_explain"]
     else:
         src += "Eval vm_compute in (%s input).\n" % fam["model"]
     with open(path, "w") as fh:
